@@ -5,6 +5,11 @@ HERE = os.path.dirname(os.path.dirname(os.path.abspath(__file__)))
 
 # id -> (technique, level text, level note, design ref)
 CHECKS = {
+ "C09": (
+  "model-based testing of the array map against a dict (generated op lists), generated sampler move histories with a shared tiny cache and per-step invariant, trajectory differential across cache thresholds, monitored cached-likelihood wrappers in NUMBA_DISABLE_JIT runs, cache-content audit for the pedigree sampler",
+  "Exploration: (1) generated set/get histories with tiny sizes (growth + overflow flushes) against a dict model and structural invariants; (2) generated histories of jitted mutation/recombination/dosage sweeps and exchanges on 1-3 chains sharing a small caller-supplied cache: after every move every chain's carried llk equals the recomputed one, and every value left in the cache is audited; (3) assembler traces (all chains) recomputed and bit-identical trajectories for cache thresholds -1/0/100; (4) plain-python runs of the assemble, call and call-pedigree samplers with every return of the cached wrappers re-verified against that sample's own reads; (5) caller-supplied pedigree cache audited after gibbs/MH/swap calls with unequal read counts; call sampler llk trace recomputed.",
+  "Likelihood formula itself is C04's job; plain-python (NUMBA_DISABLE_JIT) execution is taken to run the same source; histories <= 25 moves, runs <= 25 steps.",
+  "DESIGN.md §4 C09"),
  "C18": (
   "hypothesis PBT over generated pedigrees/states: Gibbs vector vs exact full conditional of an independently enumerated joint, MH ordered-state detailed balance, forced-index extraction of the parental swap acceptance (.py_func with np.random replaced), cache-content audit",
   "Exploration: generated pedigrees (founders/duos/trios/selfing/multi-generation, random labelling, mixed ploidy 2/4[/6], balanced/unbalanced/clonal tau, lambda, errors, unequal read sets padded as call-pedigree pads) with a random joint state, target and allele: gibbs_probabilities equals the normalised joint over the allele options, metropolis_hastings_probabilities is a distribution in detailed balance with it, pair_allele_swap_step's acceptance equals min(1, pi(G')/pi(G)) and restores/applies the state correctly, and every entry left in a caller-supplied likelihood cache is that sample's own likelihood.",
